@@ -13,6 +13,7 @@ _n = int(sys.argv[1])
 _K = int(sys.argv[2])
 _repo = sys.argv[3]
 _cwd = sys.argv[4]
+_verif = os.path.dirname(os.path.dirname(os.path.abspath(__file__)))
 
 # heap shift BEFORE `import ast`: moves every later allocation, which permutes the
 # iteration order of sets of type objects / nodes (hashed by address)
@@ -85,7 +86,14 @@ def run_op(op):
     devnull = open(os.devnull, "w")
     sys.stdout = devnull
     try:
-        if op["op"] == "FMT":
+        if op["op"] == "TXN":
+            # the public scheduler API (processing.fix / chain) driven by a synthetic rule script
+            if _verif not in sys.path:
+                sys.path.append(_verif)
+            from sim import e1_txn
+
+            res = ["ok", e1_txn.run_scheduler(op["case"], max_iter=1)]
+        elif op["op"] == "FMT":
             res = ["ok", pyrefact.format_code(
                 op["x"], safe=op.get("safe", False), keep_imports=op.get("keep_imports", False),
                 preserve=frozenset(op.get("preserve", ())), max_line_length=op.get("max_line_length", 100))]
